@@ -4,6 +4,7 @@ from .common import *
 from .codewrite import *
 from .lifecycle import *
 from .c04 import lock_holders, aggregate_sites
+from . import scans
 
 DECIDED = ("MIR makes unwinding explicit, so each clause is a path property: R5.1 lock poison is swallowed (C04 R4.2) and no unwrap/expect is "
            "applied to a LockResult; R5.2 in every destructor of the crate a diverging path is either on the not-panicking edge of "
@@ -26,21 +27,12 @@ def run(ck, models, tier):
     ck.trusted += ["rustc MIR: elaborated drops and cleanup blocks", "std::thread::panicking() is true while unwinding", "std models"]
     for tm in models:
         # ---------------- R5.1
-        n = 0
-        for b in tm.facts.fn_bodies():
-            for blk in b["blocks"]:
-                t = blk["term"]
-                if t["k"] == "call" and t["callee"]["k"] == "def":
-                    c = t["callee"]
-                    name = (c.get("resolved") or c)["path"]
-                    if name.startswith("std::result::Result::<T, E>::") and name.split("::")[-1] in ("unwrap", "expect", "unwrap_unchecked"):
-                        args = (c.get("resolved") or c)["args"]
-                        if any("MutexGuard" in (a.get("ty", {}).get("s", "")) or "PoisonError" in (a.get("ty", {}).get("s", "")) for a in args):
-                            n += 1
-                            ck.ob("R5.1", "unwrap-on-lock-result/%s" % short(b["path"]), tm.target, False,
-                                  "%s applies %s to a LockResult: a poisoned lock would panic (and abort if already unwinding)" % (b["path"], name.split("::")[-1]),
-                                  "%s:%d" % (t["span"]["file"], t["span"]["line"]))
-        ck.ob("R5.1", "no-unwrap-on-lock-result", tm.target, n == 0, "%d unwrap/expect call sites on a LockResult" % n)
+        sites = scans.unwrap_on_lock_result(tm.facts)
+        for fn, name, t in sites:
+            ck.ob("R5.1", "unwrap-on-lock-result/%s" % short(fn), tm.target, False,
+                  "%s applies %s to a LockResult: a poisoned lock would panic (and abort if already unwinding)" % (fn, name.split("::")[-1]),
+                  "%s:%d" % (t["span"]["file"], t["span"]["line"]))
+        ck.ob("R5.1", "no-unwrap-on-lock-result", tm.target, not sites, "%d unwrap/expect call sites on a LockResult" % len(sites))
         for wfn in sorted({b["path"] for b in tm.facts.fn_bodies() for name, _, _, _ in tm.facts.callees_of(b) if is_std_lock(name)}):
             vs = tm.try_variants(wfn)
             ok = bool(vs) and all(v.status == "returned" for v in vs)
@@ -179,22 +171,16 @@ def run(ck, models, tier):
                                                                         else "the function is left patched with no guard to restore it [%s]" % fmt_dec(v)),
                       where(ent[-1][0]))
         # ---------------- R5.5
-        nab = 0
-        nterm = 0
-        for b in tm.facts.fn_bodies():
-            for name, foreign, local, t in tm.facts.callees_of(b):
-                if name in ABORTING or name.startswith("std::mem::ManuallyDrop"):
-                    nab += 1
-                    ck.ob("R5.5", "aborting-or-forgetting-call/%s/%s" % (short(b["path"]), short(name)), tm.target, False,
-                          "%s calls %s" % (b["path"], name), "%s:%d" % (t["span"]["file"], t["span"]["line"]))
-            for blk in b["blocks"]:
-                t = blk["term"]
-                if not blk["cleanup"] and t["k"] in ("call", "drop", "assert") and t.get("unwind") == "terminate":
-                    nterm += 1
-                    ck.ob("R5.5", "unwind-terminates/%s" % short(b["path"]), tm.target, False,
-                          "a call in %s has unwind action `terminate`: a panic passing through it aborts the process" % b["path"])
-        ck.ob("R5.5", "no-abort-forget-catch", tm.target, nab == 0, "%d call sites of abort/exit/catch_unwind/forget/ManuallyDrop" % nab)
-        ck.ob("R5.5", "no-terminating-unwind-edges", tm.target, nterm == 0, "%d non-cleanup terminators with unwind=terminate" % nterm)
+        ab = scans.abort_sites(tm.facts) + scans.forget_sites(tm.facts)
+        for fn, name, t in ab:
+            ck.ob("R5.5", "aborting-or-forgetting-call/%s/%s" % (short(fn), short(name)), tm.target, False,
+                  "%s calls %s" % (fn, name), "%s:%d" % (t["span"]["file"], t["span"]["line"]))
+        te = scans.terminating_unwind_edges(tm.facts)
+        for fn, t in te:
+            ck.ob("R5.5", "unwind-terminates/%s" % short(fn), tm.target, False,
+                  "a call in %s has unwind action `terminate`: a panic passing through it aborts the process" % fn)
+        ck.ob("R5.5", "no-abort-forget-catch", tm.target, not ab, "%d call sites of abort/exit/catch_unwind/forget/ManuallyDrop" % len(ab))
+        ck.ob("R5.5", "no-terminating-unwind-edges", tm.target, not te, "%d non-cleanup terminators with unwind=terminate" % len(te))
     # Cargo.toml profile
     try:
         import tomllib
@@ -205,3 +191,18 @@ def run(ck, models, tier):
         ck.ob("R5.5", "no-panic-abort-profile", "*", not bad, "Cargo.toml profiles with panic = \"abort\": %s" % bad)
     except Exception as e:
         ck.ob("R5.5", "no-panic-abort-profile", "*", False, "cannot read Cargo.toml: %s" % e)
+    scans.control(ck, ck.ws, "R5.1", "unwrap-on-LockResult", scans.unwrap_on_lock_result)
+    scans.control(ck, ck.ws, "R5.5", "abort-exit-catch_unwind-call", scans.abort_sites, 2)
+    scans.control(ck, ck.ws, "R5.5", "forget-or-ManuallyDrop-call", scans.forget_sites, 2)
+    scans.control(ck, ck.ws, "R5.5", "unwind-terminate-edge", scans.terminating_unwind_edges)
+
+    def unguarded_drop_panic(f):
+        from ..model import TargetModel
+        t2 = TargetModel(f)
+        out = []
+        for adt, p_ in t2.drop_impls():
+            for v in t2.variants(p_):
+                if v.status == "diverged" and not any(d_[0].op == "ret" and d_[0].args[0] == "std::thread::panicking" for d_ in v.decisions):
+                    out.append(p_)
+        return out
+    scans.control(ck, ck.ws, "R5.2", "unguarded-panic-in-destructor", unguarded_drop_panic)
